@@ -11,12 +11,12 @@ mkdir -p $LAB/log
 rsync -a --delete --exclude target --exclude replays --exclude .git /verif/ $LAB/verif/
 rsync -a --delete --exclude target /repo/ $LAB/repo/
 sed -i "s#path = \"/repo\"#path = \"$LAB/repo\"#" $LAB/verif/harness/Cargo.toml
-( cd $LAB/repo && git checkout -q -- . 2>/dev/null )
+( cd $LAB/repo && git reset -q --hard 2>/dev/null )
 for spec in "$@"; do
   seed=${spec%%:*}; ids=${spec#*:}
   cd $LAB/repo
   if ! git apply /verif/seeded/$seed/patch.diff 2>$LAB/log/$seed.apply && ! git apply --3way /verif/seeded/$seed/patch.diff 2>>$LAB/log/$seed.apply; then
-    echo "$seed: PATCH DOES NOT APPLY"; git checkout -q -- .; continue
+    echo "$seed: PATCH DOES NOT APPLY"; git reset -q --hard; continue
   fi
   for id in ${ids//,/ }; do
     cd $LAB/verif
@@ -27,5 +27,5 @@ for spec in "$@"; do
     what=$(grep -m1 "^   " $LAB/log/$seed.$id.err | cut -c1-220)
     echo "$seed $id($tier): exit=$rc violations=$nv :: $what"
   done
-  cd $LAB/repo && git checkout -q -- . && git clean -fdq
+  cd $LAB/repo && git reset -q --hard && git clean -fdq
 done
